@@ -9,6 +9,11 @@ def main(tier):
         for claim in (True, False):
             run.add(DecodeTask('C10', combined, claim))
     run.add(ClaimPgnTask('C10'))
+    # "filtered-out traffic never disturbs later results" for fast packets: the reassembly record is deleted when a message
+    # completes, whatever the decode step returns (message, None = filtered out, or an exception) - the transition contract of C04
+    from props.C04 import TransitionTask
+    for m in range(0, 9):
+        run.add(TransitionTask(m, prop='C10'))
     from props import C10_extra
     C10_extra.add(run, tier)
     run.trust('pyvc models: abstract collections (membership/length uninterpreted), symbolic source map, str.lower as an idempotent uninterpreted function', 'z3 5.1')
